@@ -69,6 +69,18 @@ def lower(v, memo=None):
             r = FakeEvent()
             memo[v.oid] = r
             return r
+        if v.kind == 'jsonfile':
+            # a document whose lists are all empty is a real file; records are opaque otherwise
+            doc = v.fields['doc']
+            if isinstance(doc, SDict) and all(
+                    getattr(x, 'kind', None) == 'boardlist' and
+                    lower(x.fields['n'], memo) == 0 for x in doc.d.values()):
+                import io
+                import json
+                r = io.StringIO(json.dumps({k: [] for k in doc.d}))
+                memo[v.oid] = r
+                return r
+            raise CannotLower('a JSON document with opaque records')
         if v.kind in ('boardlist', 'ssocket'):
             memo[v.oid] = None
             return None
@@ -363,6 +375,15 @@ def native_check(c, registry, args):
                     info[f'clause-error:{name}'] = repr(e2)
                 if not ok:
                     failures.append((f'{short}/excpost/{name}', 'exceptional postcondition false'))
+            ns['exc_value'] = e
+            for name, oname, efn in getattr(c, 'native_exc_ensures', ()):
+                try:
+                    ok = efn(*_pick(efn, ns, order))
+                except Exception as e2:
+                    ok = False
+                    info[f'clause-error:{name}'] = repr(e2)
+                if not ok:
+                    failures.append((f'{short}/{oname}', f'{name} false on the real run'))
             if cc is not None and cc.inv is not None and c.check_inv and not c.is_init \
                     and 'self' in args:
                 if not cc.inv(args['self']):
